@@ -442,7 +442,6 @@ pub(crate) fn alloc_fault_case(ft: FatType, k: usize) {
     } else {
         assert!(matches!(r, Ok(_) | Err(Error::NotEnoughSpace)));
     }
-    kani::cover!(true);
 }
 
 fn chain_fault_on<const N: usize>(ft: FatType, truncate: bool, k: usize) {
@@ -466,7 +465,6 @@ fn chain_fault_on<const N: usize>(ft: FatType, truncate: bool, k: usize) {
     } else {
         assert!(r.is_ok());
     }
-    kani::cover!(true);
 }
 
 pub(crate) fn chain_fault_case(ft: FatType, truncate: bool, k: usize) {
